@@ -74,10 +74,12 @@ VARIABLES lR, sR, lC, sC, lL, sL,
           cMode, rMode,   \* storage mode of the dumped clusters / routers: "inline" | "dir" (fixed during a history)
           cDir,           \* clusters_configs directory: file name -> [n |-> cluster name, v |-> cluster]
           rDir,           \* per router its router_configs directory: file name -> virtual host
+          rInl,           \* routers (storage mode "dir") whose latest configuration arrived WITHOUT a router_configs path
+                          \* (admin API, xDS): from then on the router is stored inline, its directory is no longer written
           err,     \* did the last operation report an error
           pre,     \* <<lR, sR, lC, sC, lL, sL>> before the last operation
           hist
-vars == <<lR, sR, lC, sC, lL, sL, cMode, rMode, cDir, rDir, err, pre, hist>>
+vars == <<lR, sR, lC, sC, lL, sL, cMode, rMode, cDir, rDir, rInl, err, pre, hist>>
 state == <<lR, sR, lC, sC, lL, sL>>
 
 (* ---------------- routers ---------------- *)
@@ -226,7 +228,7 @@ Dump ==
                   IN DumpDir(cDir, { c \in Clusters : sC'[c].st = "ok" }, CC)
              ELSE cDir
   /\ rDir' = [r \in Routers |->
-               IF rMode = "dir" /\ sR'[r].st = "set"
+               IF rMode = "dir" /\ r \notin rInl' /\ sR'[r].st = "set"
                THEN LET vhs == sR'[r].vhs
                         VC(n) == vhs[CHOOSE i \in DOMAIN vhs : vhs[i].name = n]
                     IN DumpDir(rDir[r], { vhs[i].name : i \in DOMAIN vhs }, VC)
@@ -236,7 +238,10 @@ Dump ==
 RebuildC(c) == IF cMode = "inline" THEN sC[c]
                ELSE LET ks == { k \in DOMAIN cDir : cDir[k].n = c }
                     IN IF ks = {} THEN AbsentC ELSE cDir[CHOOSE k \in ks : TRUE].v
+(* "PathlessUpdateKeepsDirectory": the path of the directory a router was loaded from survives a path-less update, so
+   the stored router names the directory AND carries inline virtual hosts - a configuration the loader refuses *)
 RebuildR(r) == IF rMode = "inline" \/ sR[r].st = "absent" THEN sR[r]
+               ELSE IF r \in rInl THEN (IF "PathlessUpdateKeepsDirectory" \in Defects THEN AbsentR ELSE sR[r])
                ELSE LET Present(k) == k \in DOMAIN rDir[r]
                         ks == SelectSeq(KeyOrder, Present)
                     IN [st |-> "set", vhs |-> [i \in 1..Len(ks) |-> rDir[r][ks[i]]]]
@@ -249,17 +254,23 @@ InitWith(cm, rm) ==
         /\ lR = [r \in Routers |-> AbsentR] /\ sR = [r \in Routers |-> AbsentR]
         /\ lC = [c \in Clusters |-> AbsentC] /\ sC = [c \in Clusters |-> AbsentC]
         /\ lL = [n \in Listeners |-> AbsentL] /\ sL = [n \in Listeners |-> AbsentL]
-        /\ cMode = cm /\ rMode = rm /\ cDir = NoFiles /\ rDir = [r \in Routers |-> NoFiles]
+        /\ cMode = cm /\ rMode = rm /\ cDir = NoFiles /\ rDir = [r \in Routers |-> NoFiles] /\ rInl = {}
         /\ err = FALSE /\ pre = <<lR, sR, lC, sC, lL, sL>> /\ hist = << >>
 Init == \E cm \in CModes, rm \in RModes : InitWith(cm, rm)
 
+(* a successful routers update says where the router is stored from now on: with the path of its directory, or inline *)
+InlStep(kind, r, path) ==
+  rInl' = IF kind = "routers" /\ ~err' /\ rMode = "dir" THEN (IF path THEN rInl \ {r} ELSE rInl \cup {r}) ELSE rInl
+PathChoices == IF rMode = "dir" THEN BOOLEAN ELSE {TRUE}
 (* the effective configuration is dumped after every operation *)
-Log(rec) == hist' = Append(hist, rec) /\ pre' = state /\ Dump
+Log(rec) == /\ hist' = Append(hist, rec) /\ pre' = state
+            /\ InlStep(rec.op, IF rec.op = "routers" THEN rec.r ELSE "-", IF rec.op = "routers" THEN rec.path ELSE TRUE)
+            /\ Dump
 
 Next ==
   /\ Len(hist) < MaxOps
-  /\ \/ "routers" \in Ops /\ \E r \in Routers, k \in RCfgs :
-          DoRouters(r, RouterCfg(k)) /\ Log([op |-> "routers", r |-> r, k |-> k, vhs |-> RouterCfg(k)])
+  /\ \/ "routers" \in Ops /\ \E r \in Routers, k \in RCfgs, pth \in PathChoices :
+          DoRouters(r, RouterCfg(k)) /\ Log([op |-> "routers", r |-> r, k |-> k, vhs |-> RouterCfg(k), path |-> pth])
      \/ "nilrouters" \in Ops /\ DoNilRouters /\ Log([op |-> "nilrouters"])
      \/ "addroute" \in Ops /\ \E r \in Routers, d \in Doms, n \in Rts :
           DoAddRoute(r, d, RtDef(n)) /\ Log([op |-> "addroute", r |-> r, dom |-> d, rt |-> RtDef(n)])
